@@ -291,9 +291,10 @@ def index_lambda_to_high_level_op(expr: IndexLambda) -> HighLevelOp:
             children = (inner_expr.children[0],
                         inner_expr.children[1].children[1])
             bin_op = BinaryOpType.SUB
-        elif isinstance(inner_expr,
-                        p.Sum | p.Product | p.LogicalAnd | p.LogicalOr | p.BitwiseOr
-                            | p.BitwiseAnd | p.BitwiseXor):
+        elif (isinstance(inner_expr,
+                         p.Sum | p.Product | p.LogicalAnd | p.LogicalOr | p.BitwiseOr
+                             | p.BitwiseAnd | p.BitwiseXor)
+                and len(inner_expr.children) == 2):
             children = inner_expr.children
             bin_op = _SIMPLE_PYMBOLIC_BINARY_OP_MAP[type(inner_expr)]
         elif isinstance(inner_expr, p.Comparison):
